@@ -151,10 +151,12 @@ func newEnc(P *Program, db *SpecDB, r *Resolver) *Enc {
 		"(declare-fun ifacepl (Int) Int)",
 		"(declare-fun mkiface (Int Int) Int)",
 		"(declare-fun arrslice (Int) Int)",
+		"(declare-fun idxadd (Int Int) Int)",
 	)
 	e.asserts = append(e.asserts,
 		"(forall ((s Str)) (! (>= (strlen s) 0) :pattern ((strlen s))))",
 		"(forall ((b Int) (i Int)) (! (and (= (elembase (elemref b i)) b) (= (elemidx (elemref b i)) i) (< (elemref b i) 0) (= (rtag (elemref b i)) 1) (= (rootof (elemref b i)) (rootof b))) :pattern ((elemref b i))))",
+		"(forall ((o Int) (i Int)) (! (= (idxadd o i) (+ o i)) :pattern ((idxadd o i))))",
 		"(forall ((t Int) (p Int)) (! (and (not (= (mkiface t p) 0)) (= (dyntype (mkiface t p)) t) (= (ifacepl (mkiface t p)) p)) :pattern ((mkiface t p))))",
 		"(forall ((p Int)) (! (and (< (arrslice p) 0) (= (rtag (arrslice p)) 2) (= (rootof (arrslice p)) (rootof p))) :pattern ((arrslice p))))",
 		"(forall ((p Int)) (! (=> (> p 0) (= (rootof p) p)) :pattern ((rootof p))))",
@@ -976,7 +978,9 @@ func (e *Enc) storeField(st *State, ref Term, S types.Type, i int, v Val) {
 }
 
 func (e *Enc) elemRef(sv SliceV, idx Term) Term {
-	return app(SInt, "elemref", sv.Base, tAdd(sv.Off, idx))
+	// idxadd is an uninterpreted alias of + (axiom below): element references then match quantifier
+	// triggers syntactically instead of modulo arithmetic rewriting
+	return app(SInt, "elemref", sv.Base, app(SInt, "idxadd", sv.Off, idx))
 }
 
 func (e *Enc) posStr(p token.Pos) string {
